@@ -370,6 +370,13 @@ def module_env(prog: Any, module: Any, base: dict[str, Any], interp_kwargs: dict
         elif isinstance(st, ast.ImportFrom):
             for al in st.names:
                 nm = al.asname or al.name
+                if nm not in env and (st.module or "").split(".")[0] in PURE_STDLIB and not st.level:
+                    try:  # names taken from the pure standard library are themselves (reduce, attrgetter, namedtuple, …)
+                        import importlib
+                        env[nm] = getattr(importlib.import_module(st.module), al.name)
+                        continue
+                    except Exception:
+                        pass
                 if nm not in env and nm[:1].isupper():
                     env[nm] = type(nm, (Recorded,), {})
         if isinstance(st, ast.FunctionDef) and st.name not in env:
@@ -392,6 +399,13 @@ def module_env(prog: Any, module: Any, base: dict[str, Any], interp_kwargs: dict
                             args = [const_eval(prog, module, a) for a in v.args]
                             kws = {k.arg: const_eval(prog, module, k.value) for k in v.keywords if k.arg}
                             env[tg.id] = getattr(importlib.import_module(v.func.value.id), v.func.attr)(*args, **kws)
+                        except Exception:
+                            pass
+                    elif isinstance(v, ast.Call) and isinstance(v.func, ast.Name) and (getattr(env.get(v.func.id), "__module__", "") or "").split(".")[0] in PURE_STDLIB:
+                        try:  # PipelineInfo = namedtuple("PipelineInfo", [...]) with namedtuple imported from collections
+                            args = [const_eval(prog, module, a) for a in v.args]
+                            kws = {k.arg: const_eval(prog, module, k.value) for k in v.keywords if k.arg}
+                            env[tg.id] = env[v.func.id](*args, **kws)
                         except Exception:
                             pass
     return env
